@@ -58,8 +58,12 @@ pub struct HealthCheckWrapper<T, C> {
     /// Handle to the background health check task
     health_check_task: Arc<RwLock<Option<JoinHandle<()>>>>,
 
-    /// Round-robin counter for RoundRobin strategy
+    /// Round-robin counter for RoundRobin strategy (`get_healthy`)
     round_robin_counter: Arc<AtomicUsize>,
+
+    /// Round-robin counter for `get_usable`: one cursor per accessor, so that
+    /// callers of one accessor do not skew the rotation seen by the other
+    usable_round_robin_counter: Arc<AtomicUsize>,
 }
 
 impl<T, C> HealthCheckWrapper<T, C>
@@ -221,18 +225,20 @@ where
     ///
     /// Returns `None` if no healthy resources are available.
     pub async fn get_healthy(&self) -> Option<T> {
-        self.get_with_filter(|s| s == HealthStatus::Healthy).await
+        self.get_with_filter(|s| s == HealthStatus::Healthy, &self.round_robin_counter)
+            .await
     }
 
     /// Get a usable resource (healthy or degraded).
     ///
     /// Returns `None` if no usable resources are available.
     pub async fn get_usable(&self) -> Option<T> {
-        self.get_with_filter(|s| s.is_usable()).await
+        self.get_with_filter(|s| s.is_usable(), &self.usable_round_robin_counter)
+            .await
     }
 
     /// Get a resource matching the filter function.
-    async fn get_with_filter<F>(&self, filter: F) -> Option<T>
+    async fn get_with_filter<F>(&self, filter: F, round_robin_counter: &AtomicUsize) -> Option<T>
     where
         F: Fn(HealthStatus) -> bool,
     {
@@ -253,7 +259,7 @@ where
         let selected_idx = self
             .config
             .selection_strategy
-            .select(&available, &self.round_robin_counter)?;
+            .select(&available, round_robin_counter)?;
 
         available.get(selected_idx).map(|ctx| ctx.context.clone())
     }
@@ -419,6 +425,7 @@ where
             config: self.config,
             health_check_task: Arc::new(RwLock::new(None)),
             round_robin_counter: Arc::new(AtomicUsize::new(0)),
+            usable_round_robin_counter: Arc::new(AtomicUsize::new(0)),
         }
     }
 }
